@@ -67,6 +67,8 @@ def positions(n, kind, bonded):
 
 
 def element_list(n, offset):
+    if offset < 0:
+        return [-offset] * n        # a molecule of ONE element (silicon cluster, chlorine, hydrogen): labels run to Si100, Cl200 ...
     return [((offset + i * (1 if offset != 50 else 7)) % 103) + 1 for i in range(n)]
 
 
@@ -206,6 +208,15 @@ def roundtrip(part, fmt, n, offset, kind, bonded, route, tmpdir):
         part.fail("%s-elements:%s" % (fmt, key), "%s: elements read back differ (first difference at atom %d)"
                   % (what, next((i for i, (a, b) in enumerate(zip(bz, zs)) if a != b), min(len(bz), len(zs)))), case)
         return
+    # the labels a molecule carries are derived from its elements in order (symbol + running number per element): the same after loading
+    try:
+        if [str(x) for x in back.labels] != [str(x) for x in make_molecule(zs, pos0.copy(), bonded).labels]:
+            lb, lw = [str(x) for x in back.labels], [str(x) for x in make_molecule(zs, pos0.copy(), bonded).labels]
+            k_ = next(i for i, (a_, b_) in enumerate(zip(lb, lw)) if a_ != b_) if len(lb) == len(lw) else -1
+            part.fail("%s-labels:%s" % (fmt, nkey), "%s: atom labels of the molecule read back differ from those of the molecule written (first difference at atom %d: %r vs %r)"
+                      % (what, k_, lb[k_] if k_ >= 0 else len(lb), lw[k_] if k_ >= 0 else len(lw)), case)
+    except Exception as e:
+        part.fail("%s-labels-raise" % fmt, "%s: reading the labels of the loaded molecule raised %r" % (what, e), case)
     tol = 5.0e-13 if fmt == "xyz" else 5.0e-5
     dev = np.abs(np.asarray(back.positions) - pos).max()
     part.dev("coords_%s" % fmt, dev)
@@ -526,6 +537,10 @@ def run(ctx):
                             if not ctx.thorough and off != 0 and kind not in ("generic", "negative"):
                                 continue
                             jobs.append(("rt", fmt, n, off, kind, bonded, route))
+    for fmt in ("xyz", "sdf"):
+        for n in (3, 99, 100, 101, 200):
+            for off in (-14, -17, -1):
+                jobs.append(("rt", fmt, n, off, "generic", False, "string"))
     for z in range(1, 104):
         jobs.append(("xyzread", z))
     for k in (1, 2, 3):
